@@ -734,6 +734,30 @@ func (it *c11Interp) havoc(fr *c11Frame, st *c11St, loop ast.Node) {
 			st.env[v] = c11LoopSym(loop, fr.path, v)
 		}
 	}
+	// a loop that calls functions: the callees may write through any pointer to a local that exists
+	if len(st.escaped) > 0 {
+		calls := false
+		ast.Inspect(loop, func(n ast.Node) bool {
+			if c, ok := n.(*ast.CallExpr); ok && builtinName(fr.info, c) == "" {
+				if tv, ok := fr.info.Types[c.Fun]; !ok || !tv.IsType() {
+					calls = true
+				}
+			}
+			return !calls
+		})
+		if calls {
+			for o, owner := range st.escaped {
+				if env := it.envOf(fr, st, owner); env != nil {
+					if cur, ok := env[o]; ok {
+						if _, done := pre[o]; !done {
+							pre[o] = cur
+							env[o] = c11LoopSym(loop, fr.path, o)
+						}
+					}
+				}
+			}
+		}
+	}
 	// variables written through pointers to locals (`*dst = append(*dst, u)`)
 	for _, p := range it.refTargets(fr, st, loop) {
 		if env := it.envOf(fr, st, p.name); env != nil {
@@ -1012,7 +1036,7 @@ func (it *c11Interp) callInline(fr *c11Frame, st *c11St, fi *FuncInfo, recv *c11
 		for _, f := range fi.Decl.Type.Results.List {
 			for _, nm := range f.Names {
 				if o, ok := info.Defs[nm].(*types.Var); ok {
-					env[o] = it.zeroOf(st, o.Type())
+					env[o] = it.newZero(st, o.Type())
 				}
 			}
 		}
@@ -1076,7 +1100,7 @@ func (it *c11Interp) run(fi *FuncInfo, bind map[types.Object]*c11V) ([]c11Out, *
 		for _, f := range fi.Decl.Type.Results.List {
 			for _, nm := range f.Names {
 				if o, ok := info.Defs[nm].(*types.Var); ok {
-					st.env[o] = it.zeroOf(st, o.Type())
+					st.env[o] = it.newZero(st, o.Type())
 				}
 			}
 		}
